@@ -321,7 +321,39 @@ def build_gran(b0, b1, seq, t, e, adv):
     return st
 
 
-SUITES = [('granule', suite_granule), ('windows', suite_windows), ('codebooks', suite_codebooks), ('floor1', suite_floor1), ('floor0', suite_floor0), ('residue', suite_residue), ('mapping', suite_mapping)]
+def suite_pairs(tier):
+    """feature combinations: floor type x residue type x channels x coupling x submaps x block-size pair x VQ dimension, two fillings"""
+    pairs = ((64, 64), (64, 1024), (512, 512), (256, 2048)) if tier == 'quick' else ((64, 64), (64, 128), (64, 1024), (128, 8192), (512, 512), (256, 2048), (4096, 8192))
+    for (b0, b1) in pairs:
+        for ft in (0, 1):
+            for rt in (0, 1, 2):
+                for ch in (1, 2, 3):
+                    for coup in ((), ((0, 1),), ((1, 0), (2, 1))):
+                        if coup and max(max(c) for c in coup) >= ch:
+                            continue
+                        for nsub in (1, 2):
+                            if nsub > ch:
+                                continue
+                            for vqdim in (1, 2, 4):
+                                for fa in ((7, 3), (11, 5)):
+                                    if not mine():
+                                        continue
+                                    yield ('pair', b0, b1, ft, rt, ch, coup, nsub, vqdim, fa), (lambda a=(b0, b1, ft, rt, ch, coup, nsub, vqdim, fa): build_pair(*a))
+
+
+def build_pair(b0, b1, ft, rt, ch, coup, nsub, vqdim, fa):
+    s = vsynth.base_setup(channels=ch, bs0=b0, bs1=b1, restype=rt, floortype=ft, psize=vqdim * 2, vqdim=vqdim, coupling=list(coup), rate=22050)
+    if nsub == 2:
+        # second submap: the other floor type where possible (floor 1 always available), residue 1
+        rb = vspec.ilog(b0 // 2) - 1
+        s.floors.append(vspec.Floor1([0], [2], [0], [0], [[1]], 3, rb, [(1 << rb) // 3, (1 << rb) // 2]))
+        s.residues.append(vspec.Residue(1, 0, b1 // 2, vqdim * 2, 2, 0, [0, 1], [[-1] * 8, [2] + [-1] * 7]))
+        s.mappings = [vspec.Mapping(2, list(coup), [c % 2 for c in range(ch)], [0, 1], [0, 1], flag_submaps=1)]
+    f = vsynth.Filler(fixed={'f1.nonzero': lambda c, d: 0 if (fa[0] == 11 and c == ch - 1) else 1, 'f0.amp': lambda c, d: 1 + (c if isinstance(c, int) else 0) % 4}, a=fa[0], b=fa[1])
+    return vsynth.Stream(s, pk_seq(s, [0, 1, 1, 0, 1], f))
+
+
+SUITES = [('granule', suite_granule), ('pairs', suite_pairs), ('windows', suite_windows), ('codebooks', suite_codebooks), ('floor1', suite_floor1), ('floor0', suite_floor0), ('residue', suite_residue), ('mapping', suite_mapping)]
 
 
 # ------------------------------------------------------------------- workers
